@@ -687,7 +687,49 @@ impl Engine for GenEngine {
             out_rel.push_str(if ctx.chance(1, 2) { "/generated" } else { "/g e n" });
             let out_abs = cwd.join(&out_rel);
             let out_arg = if rel_out { out_rel.clone() } else { out_abs.to_string_lossy().to_string() };
-            let noise: Vec<(String, String)> = (0..ctx.draw(4)).map(|i| (format!("NOISE_{}", i), format!("{}", ctx.draw(1 << 30)))).collect();
+            let mut noise: Vec<(String, String)> = (0..ctx.draw(4)).map(|i| (format!("NOISE_{}", i), format!("{}", ctx.draw(1 << 30)))).collect();
+            // what Cargo sets for a build script (the documented way to call the library), a shell
+            // or a CI runner: present in some executions, absent in others, with drawn values
+            if ctx.chance(1, 2) {
+                let ver = format!("{}.{}.{}", ctx.draw(30), ctx.draw(30), ctx.draw(30));
+                for (k, v) in [
+                    ("CARGO_PKG_VERSION", ver.clone()),
+                    ("CARGO_PKG_VERSION_MAJOR", ver.split('.').next().unwrap().to_string()),
+                    ("CARGO_PKG_NAME", format!("embedding-crate-{}", ctx.draw(100))),
+                    ("CARGO_PKG_AUTHORS", "Someone <someone@example.com>".to_string()),
+                    ("CARGO_PKG_DESCRIPTION", format!("description {}", ctx.draw(100))),
+                    ("CARGO_MANIFEST_DIR", cwd.to_string_lossy().to_string()),
+                    ("CARGO_CRATE_NAME", "embedding_crate".to_string()),
+                    ("OUT_DIR", tmp.to_string_lossy().to_string()),
+                    ("PROFILE", ctx.with_tape(|t| t.pick(&["debug", "release"]).to_string())),
+                    ("TARGET", "x86_64-unknown-linux-gnu".to_string()),
+                    ("HOST", "x86_64-unknown-linux-gnu".to_string()),
+                    ("OPT_LEVEL", ctx.draw(4).to_string()),
+                    ("NUM_JOBS", (1 + ctx.draw(64)).to_string()),
+                    ("RUSTC", "rustc".to_string()),
+                    ("CARGO", "/usr/bin/cargo".to_string()),
+                ] {
+                    if ctx.chance(7, 8) {
+                        noise.push((k.to_string(), v));
+                    }
+                }
+                ctx.count("fault.cargo_build_script_environment");
+            }
+            for (k, vals) in [
+                ("SOURCE_DATE_EPOCH", &["0", "1700000000"][..]),
+                ("RUST_LOG", &["trace", "debug"]),
+                ("RUST_BACKTRACE", &["1", "full", "0"]),
+                ("LC_ALL", &["C", "tr_TR.UTF-8", "de_DE.UTF-8"]),
+                ("USER", &["root", "builder", "ci"]),
+                ("CI", &["true", "1"]),
+                ("NO_COLOR", &["1"]),
+                ("TERM", &["dumb", "xterm-256color"]),
+                ("COLUMNS", &["40", "200"]),
+            ] {
+                if ctx.chance(1, 4) {
+                    noise.push((k.to_string(), ctx.with_tape(|t| t.pick(vals).to_string())));
+                }
+            }
             let before = list_tree(&root, &out_abs);
             let _ = std::fs::create_dir_all(xdir.join("warmup-out"));
             // environment faults: the temp directory is missing, or already holds entries named like generated files
